@@ -24,7 +24,10 @@ POOL = c09.POOL + [
     "{a => $, b => {c => $.len()}}.b.c", "$.toSet().toList().orderBy($)", "$.selectMany([$, $ * 10]).distinct()", "switch($.len() > 2 => 'big', true => 'small')",
     "$.any($ > 2) and not $.all($ > 2)", "$.takeWhile($ < 3).concat($.skipWhile($ < 3))", "coalesce(null, $.first()) ?? 0" if False else "coalesce(null, $.first())",
     "let(f => 2) -> $.select($ * $f).sum()", "$.where($ mod 2 = 0).select({v => $}).select($.v)",
+    # values of the shared context used where they must be hashed
+    "[$fz.a, $fz.b].distinct().len()", "[$fz.a, $fz.b, $fz.a].toSet().len() + $.len()", "$.select($fz.b).distinct().len()",
 ]
+FZ = {'k': [1, 2, 3], 'a': {'x': 1, 'y': [1, 2], 'z': 'zz', 'w': None}, 'b': {'w': None, 'z': 'zz', 'y': [1, 2], 'x': 1}}
 DATAS = [[3, 1, 2], [1, 2, 3, 4], [5, 2, 2]]
 
 
@@ -91,10 +94,21 @@ def _expr_ids(node, acc, depth=0):
 
 def write_point_preemption(rep, rng, quick, baseline):
     import yaql
-    from yaql.language import contexts, specs, expressions
+    from yaql.language import contexts, specs, expressions, utils as yutils
     from vf.props import c08
     classes = [contexts.Context, contexts.MultiContext, contexts.LinkedContext, specs.FunctionDefinition, specs.ParameterDefinition,
-               expressions.Expression]
+               expressions.Expression, yutils.FrozenDict]
+
+    def data_ids(v, acc, depth=0):
+        if depth > 8:
+            return
+        if isinstance(v, yutils.FrozenDict):
+            acc.add(id(v))
+            for k_, x in v.items():
+                data_ids(x, acc, depth + 1)
+        elif isinstance(v, (list, tuple, set, frozenset)):
+            for x in v:
+                data_ids(x, acc, depth + 1)
     hook = {'armed': False, 'thread': None, 'k': -1, 'n': 0, 'shared': set(), 'fire': None}
     saved = []
 
@@ -118,6 +132,7 @@ def write_point_preemption(rep, rng, quick, baseline):
     def fresh_world(i, j):
         shared = yaql.create_context()
         shared['cfg'] = {'k': [1, 2, 3]}
+        shared['fz'] = yutils.convert_input_data(copy.deepcopy(FZ))
         shared = shared.create_child_context()
         shared['lim'] = 2
         sa = engine(POOL[i])
@@ -126,6 +141,8 @@ def write_point_preemption(rep, rng, quick, baseline):
         c = shared
         while c is not None:
             ids.add(id(c))
+            for v in getattr(c, '_data', {}).values():
+                data_ids(v, ids)
             c = c.parent
         for _n, fd in c08.all_fds(shared):
             ids.add(id(fd))
@@ -225,8 +242,10 @@ def run(rep, tier, seed, keep=False):
             sched3.setdefault(tuple(t[2]), []).append(list(t[1]))
 
         engine = yaql.YaqlFactory().create()
+        from yaql.language import utils as yutils
         shared = yaql.create_context()
         shared['cfg'] = {'k': [1, 2, 3]}
+        shared['fz'] = yutils.convert_input_data(copy.deepcopy(FZ))       # a document the host prepared once (as create_context(data=...) does)
         shared = shared.create_child_context()
         shared['lim'] = 2
         chain0 = c09.snap_chain(shared)
@@ -239,6 +258,7 @@ def run(rep, tier, seed, keep=False):
                 # "alone": a freshly parsed statement in a freshly prepared context of its own, nothing shared with the runs under test
                 alone = yaql.create_context()
                 alone['cfg'] = {'k': [1, 2, 3]}
+                alone['fz'] = yutils.convert_input_data(copy.deepcopy(FZ))
                 alone = alone.create_child_context()
                 alone['lim'] = 2
                 base[k] = outcome(lambda: yaql.YaqlFactory().create()(POOL[i]).evaluate(data=copy.deepcopy(d), context=alone.create_child_context()))
@@ -255,6 +275,7 @@ def run(rep, tier, seed, keep=False):
         # a second shared context, assembled by the host by hand (no '#finalize' in its chain)
         hand = c09.hand_context()
         hand['cfg'] = {'k': [1, 2, 3]}
+        hand['fz'] = yutils.convert_input_data(copy.deepcopy(FZ))
         hand_chain0 = c09.snap_chain(hand)
         hbase = {}
 
@@ -268,6 +289,7 @@ def run(rep, tier, seed, keep=False):
             if k not in hbase:
                 alone = c09.hand_context()
                 alone['cfg'] = {'k': [1, 2, 3]}
+                alone['fz'] = yutils.convert_input_data(copy.deepcopy(FZ))
                 hbase[k] = norm(outcome(lambda: yaql.YaqlFactory().create()(POOL[i]).evaluate(data=copy.deepcopy(d), context=alone.create_child_context())))
             return hbase[k]
 
